@@ -2,6 +2,7 @@ package main
 
 import (
 	"encoding/json"
+	"errors"
 	"fmt"
 	"os"
 	"path/filepath"
@@ -13,6 +14,8 @@ import (
 
 	"github.com/containerd/nri/pkg/adaptation"
 	"github.com/containerd/nri/pkg/api"
+	"google.golang.org/grpc/codes"
+	"google.golang.org/grpc/status"
 
 	"verif/harness/internal/coqfmt"
 	"verif/harness/internal/hx"
@@ -355,14 +358,17 @@ func runFault(c *hx.Ctx, n int, sp faultSpec) (*faultCase, error) {
 	case "veto":
 		cs.Fault = "veto"
 		cs.Msg = fmt.Sprintf("no way %d", n)
-		msg := cs.Msg
+		herr := handlerError(sp.variant, cs.Msg)
+		if sp.variant == "os.ErrInvalid" {
+			cs.Msg = os.ErrInvalid.Error()
+		}
 		faulty.setDecide(func(rq request) action {
 			if ridOf(rq.Pod, rq.Ctr) == 2 {
-				return action{Err: fmt.Errorf("%s", msg)}
+				return action{Err: herr}
 			}
 			return action{}
 		})
-		cs.What = "handler returns an error"
+		cs.What = "handler returns an error (" + vetoName(sp.variant) + ")"
 	}
 
 	// ---- the faulted request
@@ -454,6 +460,36 @@ func runFault(c *hx.Ctx, n int, sp faultSpec) (*faultCase, error) {
 	return cs, nil
 }
 
+// the kinds of error a handler can return: a plain error, a wrapped one, os.ErrInvalid (which the plugin's
+// ttrpc server maps to InvalidArgument), status errors of several codes, a wrapped status error
+var vetoVariants = []string{"", "wrapped", "os.ErrInvalid", "status/InvalidArgument", "status/Unimplemented",
+	"status/NotFound", "status/Internal", "status/PermissionDenied", "status/Canceled", "wrapped-status/FailedPrecondition"}
+
+var codeByName = map[string]codes.Code{"InvalidArgument": codes.InvalidArgument, "Unimplemented": codes.Unimplemented,
+	"NotFound": codes.NotFound, "Internal": codes.Internal, "PermissionDenied": codes.PermissionDenied,
+	"Canceled": codes.Canceled, "FailedPrecondition": codes.FailedPrecondition}
+
+func vetoName(v string) string {
+	if v == "" {
+		return "errors.New"
+	}
+	return v
+}
+
+func handlerError(variant, msg string) error {
+	switch {
+	case variant == "wrapped":
+		return fmt.Errorf("handler: %w", errors.New(msg))
+	case variant == "os.ErrInvalid":
+		return os.ErrInvalid
+	case strings.HasPrefix(variant, "status/"):
+		return status.Error(codeByName[strings.TrimPrefix(variant, "status/")], msg)
+	case strings.HasPrefix(variant, "wrapped-status/"):
+		return fmt.Errorf("handler: %w", status.Error(codeByName[strings.TrimPrefix(variant, "wrapped-status/")], msg))
+	}
+	return errors.New(msg)
+}
+
 // ---- Go-side oracle (the same predicate as Spec.DispatchSpec.fault_ok)
 
 func faultOracle(cs *faultCase) (string, bool) {
@@ -502,6 +538,10 @@ func faultOracle(cs *faultCase) (string, bool) {
 			return "a vetoed request returned a partial result", false
 		case !eqI(notFaulty(o.Handled), before):
 			return fmt.Sprintf("after a veto the plugins %v were invoked, expected exactly those before the vetoing one %v", notFaulty(o.Handled), before), false
+		case o2.Err != "":
+			return "the request after a vetoed one failed: " + o2.Err, false
+		case !eqS(o2.Tokens, allNames) || !eqI(o2.Handled, all):
+			return fmt.Sprintf("a vetoing plugin must stay registered: the follow-up request invoked %v with contributions %v, expected all of %v", o2.Handled, o2.Tokens, all), false
 		}
 		return "", false
 	}
@@ -624,11 +664,12 @@ func measureTotals(c *hx.Ctx, ev api.Event, pos int) ([2]int, error) {
 func driveFaults(c *hx.Ctx) error {
 	quiet()
 	adaptation.SetPluginRequestTimeout(faultT)
-	adaptation.SetPluginRegistrationTimeout(10 * time.Second)
+	adaptation.SetPluginRegistrationTimeout(3 * time.Second)
 	imports := "From NRI Require Import Model.Dispatch Spec.DispatchSpec Run.Common Run.RunDispatch."
 	sh := c.NewShard("faults", imports, "fault_case", "corr_fault", "holds_fault", 250)
 	r := c.Rand("faults")
 
+	nv := 0
 	var specs []faultSpec
 	// committed schedules first: the ones that exposed the two isFatalError defects, and boundary shapes
 	for _, f := range corpusFiles("C07") {
@@ -718,6 +759,15 @@ func driveFaults(c *hx.Ctx) error {
 			specs = append(specs, faultSpec{ev: ev, pos: pos, kind: "hang", variant: "sleep"})
 			specs = append(specs, faultSpec{ev: ev, pos: pos, kind: "hang", variant: "ctx"})
 			specs = append(specs, faultSpec{ev: ev, pos: pos, kind: "veto"})
+			if c.Quick() {
+				// one further kind of handler error per (entry point, position), each kind several times over the run
+				nv++
+				specs = append(specs, faultSpec{ev: ev, pos: pos, kind: "veto", variant: vetoVariants[1+nv%(len(vetoVariants)-1)]})
+			} else {
+				for _, v := range vetoVariants[1:] {
+					specs = append(specs, faultSpec{ev: ev, pos: pos, kind: "veto", variant: v})
+				}
+			}
 		}
 	}
 	// a peer that stops reading while a request larger than the socket buffers is written
@@ -898,7 +948,12 @@ func driveFaults(c *hx.Ctx) error {
 	for k, v := range classes {
 		c.Count("faults.call_result."+k, v)
 	}
+	if os.Getenv("VERIF_FAULT_TIMED") == "" {
+		if err := driveRegFail(c, imports); err != nil {
+			return err
+		}
+	}
 	c.Stats.Exhaustive = !c.Quick()
-	c.Stats.Rule = "faults: per case a fresh Adaptation (request time-out 200 ms) with plugins 10-A, 20-B, 30-C; for each of the thirteen entry points x each position of the faulty plugin: trunk cut by the frame-parsing proxy after n bytes in either direction (quick: n in {0,1,7,8,9,17,18,19,end-1,end} = the boundaries of the multiplexer header, the ttrpc header and the message, +-1; thorough: every n of the exchange), trunk ending in the middle of a frame (injected partial frame) at the start/end of the request or while idle, peer close before (unnoticed / noticed / orderly stop), inside the handler and right after the call, handler sleeping 2.5 x the time-out or returning its expired context's error, handler returning an error; peer that stops reading while a 512 KiB request is written (recovered by cutting the connection after the bound); each case = probe + faulted + follow-up request; every case is non-trivial."
+	c.Stats.Rule = "faults: per case a fresh Adaptation (request time-out 200 ms) with plugins 10-A, 20-B, 30-C; for each of the thirteen entry points x each position of the faulty plugin: trunk cut by the frame-parsing proxy after n bytes in either direction (quick: n in {0,1,7,8,9,17,18,19,end-1,end} = the boundaries of the multiplexer header, the ttrpc header and the message, +-1; thorough: every n of the exchange), trunk ending in the middle of a frame (injected partial frame) at the start/end of the request or while idle, peer close before (unnoticed / noticed / orderly stop), inside the handler and right after the call, handler sleeping 2.5 x the time-out or returning its expired context's error, handler returning an error; peer that stops reading while a 512 KiB request is written (recovered by cutting the connection after the bound); each case = probe + faulted + follow-up request; handler errors of ten kinds (errors.New, wrapped, os.ErrInvalid, status errors of seven codes, a wrapped status) — each must veto and leave the plugin registered. regfail: plugins A and C registered, a third one fails in its Synchronize call (error / no answer within the time-out / disconnect); then, each with a bounded wait, a request inside BlockPluginSync()/Unblock(), the registration of a further plugin D and a second request that must reach A, C, D. Every case is non-trivial."
 	return nil
 }
